@@ -91,6 +91,13 @@ type txWithIndex struct {
 // inputs to double check transactions that are in the block but were already processed.
 // This is necessary if the block is not sorted in topological order.
 func (bf *blockFilterer) checkFilterTx(tx *bchutil.Tx, txIndex int, inputs map[chainhash.Hash][]*txWithIndex) {
+	// A transaction that already matched has updated the filter and had its
+	// dependents re-checked.  Visiting it again only repeats that work, and
+	// does so exponentially often for chains of transactions that spend
+	// several outputs of their parent.
+	if bf.matchedIndices[txIndex] {
+		return
+	}
 	if bf.filter.MatchTxAndUpdate(tx) {
 		bf.matchedIndices[txIndex] = true
 		if dependentTxs, ok := inputs[tx.MsgTx().TxHash()]; ok {
